@@ -19,7 +19,7 @@ Definition T (rp rq : Z) (rmax : bool) (rburst trp trq : Z) (trmax : bool) (tbur
 Inductive c17case :=
 | CReserve (lp lq burst : Z) (inf : bool) (reqs : list (Z * Z)) (obs : list (Z * Z))
 | CProvision (cfg : tconfig) (ok : bool) (rb tb : Z) (hast : bool)
-| CRead (cfg : tconfig) (avail chunk : Z) (lens : list Z) (obs : list (Z * Z)).
+| CRead (cfg : tconfig) (avail chunk : Z) (lens : list Z) (obs : list (Z * Z)) (consT consL : Z).
 
 Fixpoint res_seq (L : limiter) (st : lstate) (reqs : list (Z * Z)) : list (Z * Z) :=
   match reqs with
@@ -35,6 +35,8 @@ Fixpoint zz_eqb (a b : list (Z * Z)) : bool :=
   | (x1, y1) :: a', (x2, y2) :: b' => (x1 =? x2) && ((y1 =? y2) || (y2 =? -1)) && zz_eqb a' b'
   | _, _ => false
   end.
+
+Definition consumed (L : limiter) (st : lstate) : Z := (lburst L * unit L - tok st) / unit L.
 
 Definition pulls_of (tr : list ev) : list (Z * Z) :=
   flat_map (fun e => match e with EPull _ _ b bs => [(b, Z.of_nat (List.length bs))] | _ => [] end) tr.
@@ -52,12 +54,15 @@ Definition check (c : c17case) : bool :=
              && (match htotal h with Some L => lburst L | None => 0 end =? tb)
              && Bool.eqb (match htotal h with Some _ => true | None => false end) hast
       end
-  | CRead cfg avail chunk lens obs =>
+  | CRead cfg avail chunk lens obs consT consL =>
       match provision cfg with
       | None => false
       | Some h =>
           let ss := [{| sstart := 0; sjit := 0; scancel := false; sdata := repeat x00 (Z.to_nat avail) |}] in
           let ops := map (fun l => {| oc := 0; olen := l; odelay := 0; oj2 := 0; oj3 := 0; oavail := chunk |}) lens in
-          zz_eqb (pulls_of (snd (run h ss ops))) obs
+          let '(w, tr) := run h ss ops in
+          zz_eqb (pulls_of tr) obs
+          && ((consT =? -1) || (match htotal h with Some L => consumed L (wtotal w) | None => 0 end =? consT))
+          && ((consL =? -1) || (match hlocal h with Some L => consumed L (wlocal w 0%nat) | None => 0 end =? consL))
       end
   end.
